@@ -19,8 +19,8 @@ static struct nv_feature nv_dataset_feature(const struct nv_dataset* d, int64_t 
 
 /* ghost: the label value of the sample at position nv_g (single-label: nv_iv; multi-label: first label nv_mv0), and the
  * result of nano::find(hashes, that value).
- * ASSUMED contract of nano::find (include/nano/dataset/hash.h): a pure function of (hashes, value) returning -1 or a
- * position in [0, hashes.size()). */
+ * Contract of nano::find (include/nano/dataset/hash.h) used here: a pure function of (hashes, value) returning -1 or a
+ * position in [0, hashes.size()).  Single-label values: PROVED (target find_sclass, find.h); multi-label: ASSUMED. */
 int32_t nv_iv; int8_t nv_mv0; int64_t nv_mcols;
 int64_t nv_find_idx, nv_find_count; const uint64_t* nv_find_hashes; _Bool nv_find_arg_ok;
 static int64_t nv_find_sclass(const struct nv_t1u* hashes, const int32_t* value)
